@@ -95,21 +95,21 @@ def OpKind.fn (k : OpKind) (r d : BitVec 64) : Option (BitVec 64) :=
   | .and64 => some (r &&& d) | .or64 => some (r ||| d) | .xor64 => some (r ^^^ d)
   | .divs32 =>
       if d32.toInt = 0 then none
-      else if Int.tdiv a32.toInt d32.toInt ≥ 2147483648 then none
+      else if Int.tdiv a32.toInt d32.toInt < -(2 ^ 31) ∨ Int.tdiv a32.toInt d32.toInt ≥ 2 ^ 31 then none
       else some ((BitVec.ofInt 32 (Int.tdiv a32.toInt d32.toInt)).setWidth 64)
   | .mods32 =>
       if d32.toInt = 0 then none
-      else if Int.tdiv a32.toInt d32.toInt ≥ 2147483648 then none
+      else if Int.tdiv a32.toInt d32.toInt < -(2 ^ 31) ∨ Int.tdiv a32.toInt d32.toInt ≥ 2 ^ 31 then none
       else some ((BitVec.ofInt 32 (Int.tmod a32.toInt d32.toInt)).setWidth 64)
   | .divu32 => if d32.toNat = 0 then none else some ((BitVec.ofNat 32 (a32.toNat / d32.toNat)).setWidth 64)
   | .modu32 => if d32.toNat = 0 then none else some ((BitVec.ofNat 32 (a32.toNat % d32.toNat)).setWidth 64)
   | .divs64 =>
       if d.toInt = 0 then none
-      else if Int.tdiv r.toInt d.toInt ≥ 9223372036854775808 then none
+      else if Int.tdiv r.toInt d.toInt < -(2 ^ 63) ∨ Int.tdiv r.toInt d.toInt ≥ 2 ^ 63 then none
       else some (BitVec.ofInt 64 (Int.tdiv r.toInt d.toInt))
   | .mods64 =>
       if d.toInt = 0 then none
-      else if Int.tdiv r.toInt d.toInt ≥ 9223372036854775808 then none
+      else if Int.tdiv r.toInt d.toInt < -(2 ^ 63) ∨ Int.tdiv r.toInt d.toInt ≥ 2 ^ 63 then none
       else some (BitVec.ofInt 64 (Int.tmod r.toInt d.toInt))
   | .divu64 => if d.toNat = 0 then none else some (BitVec.ofNat 64 (r.toNat / d.toNat))
   | .modu64 => if d.toNat = 0 then none else some (BitVec.ofNat 64 (r.toNat % d.toNat))
@@ -186,6 +186,15 @@ theorem effect_sar64 : OpKind.sar64.Effect := fun _ => ⟨_, rfl, rfl⟩
 
 /-! ### effect lemmas: `cmp; setcc; movzb` -/
 
+/-- like `bv_ints`, for goals `h₁ → h₂ → … → P` whose hypotheses contain `if`s as well -/
+macro "bv_ints'" : tactic => `(tactic| (
+  try simp only [BitVec.toInt_eq_toNat_cond, BitVec.toNat_setWidth, BitVec.toNat_signExtend, BitVec.msb_eq_decide,
+             BitVec.toNat_add, BitVec.toNat_sub, BitVec.toNat_neg, BitVec.toNat_not, BitVec.toNat_ofNat,
+             BitVec.toNat_eq, Int.bmod_def] at *
+  try simp at *
+  repeat' (first | split | intro _)
+  all_goals (first | omega | (simp at * <;> omega) | (simp at *; done))))
+
 macro "cmp_effect" : tactic => `(tactic| (
   intro s
   refine ⟨_, rfl, ?_⟩
@@ -193,7 +202,12 @@ macro "cmp_effect" : tactic => `(tactic| (
   rw [low8_write]
   simp [State.cond, State.flags, State.src, State.getW, b64, sub_eq_zero_iff, sf_ne_of_32, sf_ne_of_64,
         BitVec.usubOverflow]
-  try (split <;> simp_all <;> omega)))
+  try (generalize s.get Reg.rax = r
+       generalize s.get Reg.rdi = d
+       repeat' split
+       all_goals first
+         | rfl
+         | (exfalso; rename_i h1 h2; revert h1 h2; bv_ints'))))
 
 theorem effect_eq32 : OpKind.eq32.Effect := by cmp_effect
 theorem effect_ne32 : OpKind.ne32.Effect := by cmp_effect
